@@ -51,6 +51,10 @@ def arrays_of(obj):
     return []
 
 
+class CtorMutates(Exception):
+    pass
+
+
 def make_funcs(kind, case):
     from catii import ffuncs, xfuncs
     mod = ffuncs if kind == "ccube" else xfuncs
@@ -77,6 +81,9 @@ def make_funcs(kind, case):
         except Exception as e:
             out.append((name, None, inputs, before, e))
             continue
+        if snap(inputs) != before:      # found HERE, so that the aggregate named is the one whose constructor did it
+            out.append((name, None, inputs, before, CtorMutates()))
+            continue
         out.append((name, f, inputs, before, None))
     return out
 
@@ -100,11 +107,17 @@ def check(ctx, case):
             has_missing = not bool(np.all(case["fact_valid"]))
             ctx.case(desc, nontrivial=has_missing)
             ctx.hit("%s.%s" % (kind, name))
+            if isinstance(err, CtorMutates):
+                ctx.oracle_fail("%s_%s(...) changed one of its arguments (constructor)" % (kind, name), desc, cls="C17-input-mutated")
+                continue
             if err is not None:
                 ctx.hit("constructor_raised:" + type(err).__name__)
                 continue
             if snap(inputs) != before:
-                ctx.oracle_fail("%s_%s(...) changed one of its arguments (constructor)" % (kind, name), desc, cls="C17-input-mutated")
+                # the buffers are shared between the aggregates of this case: blame the constructor that was caught doing it
+                if not any(isinstance(m[4], CtorMutates) for m in made):
+                    ctx.oracle_fail("%s_%s(...): its arguments changed between its construction and its use" % (kind, name), desc,
+                                    cls="C17-input-mutated")
                 continue
             cube = mk()
             try:
